@@ -77,8 +77,11 @@ type thr struct {
 	// inOp: the thread is blocked natively inside the operation of statement parkedAt (the
 	// statement's yield was passed earlier: several visible operations in one statement)
 	inOp bool
-	gid  int64
-	idx  int // number of children the parent had spawned before this one
+	// asyncEv: an event of this thread that arrived while another thread was being run (the
+	// thread was released from inside a native operation by somebody else's step)
+	asyncEv *event
+	gid     int64
+	idx     int // number of children the parent had spawned before this one
 }
 
 // wakeUp grants the thread (starting the goroutine of a timer callback first).
@@ -492,41 +495,61 @@ func Run(tracePath string, entry func()) Result {
 		t.curStmt = st.Stmt
 		t.parkedAt = ""
 		fireEnv(st.Step)
+		got := false
 		if t.inOp {
 			// the goroutine sits inside the native operation; other threads' steps (or the
 			// environment event just fired) make it proceed by itself
 			t.inOp = false
-			logf("step %d: T%d proceeds from inside %s (next stop %s)", k, st.Th, st.Stmt, next)
+			if t.asyncEv != nil {
+				logf("step %d: T%d already proceeded from inside %s (%s %s)", k, st.Th, st.Stmt, t.asyncEv.kind, t.asyncEv.at)
+				t.asyncEv = nil
+				got = true
+			} else {
+				logf("step %d: T%d proceeds from inside %s (next stop %s)", k, st.Th, st.Stmt, next)
+			}
 		} else {
 			logf("step %d: grant T%d at %s (next stop %s)", k, st.Th, st.Stmt, next)
 			t.wakeUp()
 		}
-		select {
-		case ev := <-events:
-			if ev.t != t {
-				res.Diverged = fmt.Sprintf("step %d: event from T%d while T%d runs", k, ev.t.id, t.id)
-				return finish(res)
-			}
-			logf("   T%d %s %s", t.id, ev.kind, ev.at)
-		case <-time.After(1500 * time.Millisecond):
-			mu.Lock()
-			passed := t.seen[next]
-			mu.Unlock()
-			if next != "" && passed {
-				// the next operation belongs to a statement the thread has already entered
-				// (e.g. a call made while evaluating the statement took a step of its own):
-				// the goroutine is now blocked inside that statement's operation
-				t.parkedAt = next
-				t.inOp = true
-				if len(t.future) > 0 {
-					t.future = t.future[1:]
+		deadline := time.After(1500 * time.Millisecond)
+	wait:
+		for !got {
+			select {
+			case ev := <-events:
+				if ev.t != t {
+					if ev.t.inOp {
+						// a thread that was blocked inside a native operation has been released
+						e := ev
+						ev.t.asyncEv = &e
+						logf("   (T%d released from inside its operation: %s %s)", ev.t.id, ev.kind, ev.at)
+						continue wait
+					}
+					res.Diverged = fmt.Sprintf("step %d: event from T%d while T%d runs", k, ev.t.id, t.id)
+					return finish(res)
 				}
-				logf("   T%d is blocked inside %s", t.id, next)
-			} else if next != "" {
-				res.Diverged = fmt.Sprintf("step %d: T%d blocked natively before reaching %s", k, t.id, next)
-				return finish(res)
-			} else {
-				logf("   T%d blocked (no further steps in trace)", t.id)
+				logf("   T%d %s %s", t.id, ev.kind, ev.at)
+				break wait
+			case <-deadline:
+				mu.Lock()
+				passed := t.seen[next]
+				mu.Unlock()
+				if next != "" && passed {
+					// the next operation belongs to a statement the thread has already entered
+					// (e.g. a call made while evaluating the statement took a step of its own):
+					// the goroutine is now blocked inside that statement's operation
+					t.parkedAt = next
+					t.inOp = true
+					if len(t.future) > 0 {
+						t.future = t.future[1:]
+					}
+					logf("   T%d is blocked inside %s", t.id, next)
+				} else if next != "" {
+					res.Diverged = fmt.Sprintf("step %d: T%d blocked natively before reaching %s", k, t.id, next)
+					return finish(res)
+				} else {
+					logf("   T%d blocked (no further steps in trace)", t.id)
+				}
+				break wait
 			}
 		}
 		if len(Failures) > 0 {
